@@ -35,6 +35,7 @@ type cacheCase struct {
 	Obs    []cacheObs `json:"obs"`
 	Viol   []string   `json:"viol,omitempty"` // property-monitor findings on the implementation alone
 	LenMax int        `json:"lenmax"`
+	Conc   string     `json:"conc,omitempty"` // a two-goroutine scenario (judged by the harness alone)
 }
 
 type fakeClock struct {
@@ -316,6 +317,78 @@ func enumCacheCases(policy string, cap int, L int, expiry int64, emit func(*cach
 	}
 }
 
+// runCacheConc: a full synchronous cache; writer A's Set evicts and its eviction callback is still running when writer B sets another
+// new key.  The capacity bound and exactly-once callbacks must survive (the callback runs under the cache's lock, so B waits).
+func runCacheConc(policy string, capN int) *cacheCase {
+	cs := &cacheCase{Policy: policy, Cap: capN, Sync: true, Conc: "set-during-eviction-callback"}
+	viol := func(f string, a ...any) { cs.Viol = append(cs.Viol, fmt.Sprintf(f, a...)) }
+	var mu sync.Mutex
+	evicted := map[int64]int{}
+	inCallback := make(chan struct{}, 16)
+	release := make(chan struct{})
+	c := cache.New[int64, int64](capN).WithPolicy(cache.CachePolicy(policy)).Synchronous().
+		WithEvictFunc(func(k, v int64) {
+			mu.Lock()
+			evicted[k]++
+			mu.Unlock()
+			select {
+			case inCallback <- struct{}{}:
+			default:
+			}
+			select {
+			case <-release:
+			case <-time.After(150 * time.Millisecond):
+			}
+		}).Build()
+	for k := int64(1); k <= int64(capN); k++ {
+		c.Set(k, k*10)
+	}
+	doneA, doneB := make(chan struct{}), make(chan struct{})
+	go func() { defer close(doneA); c.Set(int64(capN)+1, 1) }()
+	select {
+	case <-inCallback:
+	case <-time.After(2 * time.Second):
+		viol("the first eviction callback never ran")
+	}
+	go func() { defer close(doneB); c.Set(int64(capN)+2, 2) }()
+	select {
+	case <-doneB: // B got through while A's callback was still running (only possible if the lock was dropped), or A's callback timed out
+	case <-time.After(100 * time.Millisecond):
+	}
+	close(release)
+	for _, d := range []chan struct{}{doneA, doneB} {
+		select {
+		case <-d:
+		case <-time.After(3 * time.Second):
+			viol("a Set did not return within 3 s")
+			return cs
+		}
+	}
+	if n := c.Len(); n > capN {
+		viol("Len()=%d exceeds capacity %d after two concurrent Sets on a full synchronous cache", n, capN)
+	}
+	for k := int64(capN) + 3; k < int64(capN)+12; k++ {
+		c.Set(k, k)
+		if n := c.Len(); n > capN {
+			viol("Len()=%d exceeds capacity %d after a further Set", n, capN)
+			break
+		}
+	}
+	c.Close()
+	mu.Lock()
+	for k, n := range evicted {
+		if n != 1 {
+			viol("eviction callback ran %d times for key %d", n, k)
+		}
+	}
+	if len(evicted) != capN+11 {
+		viol("%d keys were set and the cache closed, but %d eviction callbacks were seen", capN+11, len(evicted))
+	}
+	mu.Unlock()
+	cs.LenMax = capN
+	return cs
+}
+
 func runCache(a *args) error {
 	r := gen.New(a.seed)
 	var out []*cacheCase
@@ -328,6 +401,11 @@ func runCache(a *args) error {
 		runCacheCase(rp.Case)
 		out = append(out, rp.Case)
 		return gen.WriteJSON(a.out, map[string]any{"cases": out})
+	}
+	if a.extra == "" {
+		for _, pol := range []string{"lru", "lfu", "slru", "tinylfu"} {
+			out = append(out, runCacheConc(pol, 2))
+		}
 	}
 	if a.extra == "enum" {
 		// exhaustive: every policy, capacities 1..3, all sequences of length n over 8-9 symbols
